@@ -4,6 +4,7 @@ package main
 
 import (
 	"bytes"
+	"encoding/json"
 	"fmt"
 	"io"
 	"iter"
@@ -375,6 +376,25 @@ func c18Memory(c *Ctx) {
 			}
 			sort.Strings(added)
 			k.Input("added", added)
+			if r.IntN(3) == 0 {
+				// The trie has been iterated (and stopped) before, then receives more
+				// content through UnmarshalJSON: whatever an iteration leaves behind
+				// in the trie must not trip the next one.
+				n := 0
+				t.ForEach(func([]byte) bool { n++; return n < 2 })
+				t.ForEach(func([]byte) bool { return true })
+				other := trie.New()
+				var extra []string
+				for j := 1 + r.IntN(6); j > 0; j-- {
+					s := randSeq(r, []byte("abcxyz"), 1+r.IntN(4))
+					other.Add(s)
+					extra = append(extra, string(s))
+				}
+				if b, err := json.Marshal(other); err == nil && json.Unmarshal(b, t) == nil {
+					k.Input("then_unmarshalled_into_it", extra)
+					k.Count("tries_unmarshalled_into_after_iteration", 1)
+				}
+			}
 			stopMonitor(k, "Trie.ForEach", func() rawIter {
 				return func(cb func(item) bool) {
 					t.ForEach(func(b []byte) bool { return cb(item{Key: string(b)}) })
